@@ -122,5 +122,67 @@ for code in itertools.product((0, 1), repeat=6):
         else:
             check(m['degenerate'], f'degenerate {code} {mbits}')
 
+# 4. local background (rectangular annulus, < 10 usable pixels -> 0, sigma-clipped SourceExtractor mode)
+Z = [[0] * 7 for _ in range(7)]
+check(len(srccat.annulus_pixels((3, 3, 3, 3), 1, (7, 7))) == 8, 'single pixel, width 1: the 8-pixel ring')
+check(len(srccat.annulus_pixels((3, 3, 3, 3), 2, (7, 7))) == 24, 'single pixel, width 2: 5x5 minus centre')
+check(len(srccat.annulus_pixels((0, 0, 0, 0), 2, (7, 7))) == 8, 'corner pixel, width 2: 3x3 minus centre inside the image')
+# 2x2 box: the rectangle sides pass through pixel centres (ties)
+check(len(srccat.annulus_pixels((2, 3, 2, 3), 1, (7, 7))) == 12, '2x2 box open/open: 4x4 - 2x2')
+check(len(srccat.annulus_pixels((2, 3, 2, 3), 1, (7, 7), closed_in=True)) == 0, '2x2 box closed inner: 4x4 - 4x4')
+check(len(srccat.annulus_pixels((2, 3, 2, 3), 1, (7, 7), closed_out=True)) == 32, '2x2 box closed outer: 6x6 - 2x2')
+# 1x3 box (h=1, w=3), width 1: inner half sizes 0.75 / 2.25, outer 1.75 / 3.25 -> 3 x 7 minus 1 x 5
+check(len(srccat.annulus_pixels((3, 3, 2, 4), 1, (7, 7))) == 16, '1x3 box, width 1')
+est, k = srccat.clipped_mode([1.0] * 10 + [100.0])
+check(est == 1.0 and k == 1, 'outlier clipped, constant survivors -> their value')
+est, k = srccat.clipped_mode([2.0] * 12)
+check(est == 2.0 and k == 0, 'constant sky')
+seg7 = [row[:] for row in Z]
+seg7[3][3] = 1
+seg7[0][0] = 2
+sky = rng.normal(5, 1, (7, 7))
+lb1 = srccat.local_background(1, seg7, sky.tolist(), None, 1)
+check(lb1['values'] == [0.0] and lb1['nusable'] == [8] and not lb1['tie'], 'fewer than 10 usable pixels -> 0')
+check(srccat.local_background(1, seg7, sky.tolist(), None, 0)['values'] == [0.0], 'width 0 -> 0')
+lb2 = srccat.local_background(1, seg7, sky.tolist(), None, 2)
+ring = np.ones((7, 7), bool)
+ring[:1] = ring[-1:] = ring[:, :1] = ring[:, -1:] = False
+ring[3, 3] = False
+v = sky[ring]
+for _ in range(20):
+    keep = np.abs(v - np.median(v)) <= 3 * np.std(v)
+    if keep.all():
+        break
+    v = v[keep]
+q = abs(v.mean() - np.median(v)) / v.std()
+want = np.median(v) if q >= 0.3 else 2.5 * np.median(v) - 1.5 * v.mean()
+check(lb2['nusable'] == [24] and eq(lb2['values'][0], want, 1e-12), 'width 2 estimate vs numpy formulation')
+# usable = label 0, unmasked, finite, inside the image: corner source of 1 pixel, width 3 -> 4x4 - 1 = 15 pixels, minus
+# a masked, a NaN and two labelled pixels ((1,1) and (3,3)) = 11
+seg7[1][1] = 1
+skyn = sky.copy()
+skyn[2, 2] = np.nan
+m7 = np.zeros((7, 7), bool)
+m7[0, 1] = True
+lb3 = srccat.local_background(2, seg7, skyn.tolist(), m7.tolist(), 3)
+check(lb3['nusable'] == [11], f'usable pixel count {lb3["nusable"]}')
+# cross-check of the estimator with clipping on 200 generic samples with planted outliers
+nclipped = 0
+for t in range(200):
+    v0 = rng.normal(3, 1, rng.integers(10, 40))
+    v0[: t % 4] *= 40.0
+    est, k = srccat.clipped_mode(v0.tolist())
+    v = v0.copy()
+    for _ in range(20):
+        keep = np.abs(v - np.median(v)) <= 3 * np.std(v)
+        if keep.all():
+            break
+        v = v[keep]
+    q = abs(v.mean() - np.median(v)) / v.std()
+    want = np.median(v) if q >= 0.3 else 2.5 * np.median(v) - 1.5 * v.mean()
+    nclipped += k > 0
+    check(est is None or (eq(est, want, 1e-12) and k == len(v0) - len(v)), f'clipped mode sample {t}')
+check(nclipped > 50, 'clipping exercised')
+
 print(f'test_srccat: {n} exhaustive cases, {fails} failure(s)')
 sys.exit(1 if fails else 0)
